@@ -4,6 +4,7 @@ CONSTANTS
   Dev_NoCreate = FALSE
   Dev_CheckThenSend = TRUE
   Dev_RelUnconditional = TRUE
+  Dev_PendingTickNotLogged = TRUE
 SPECIFICATION FairSpec
 INVARIANT TypeOK
 INVARIANT Inv_OneLoop
